@@ -22,12 +22,7 @@ OPTS_QUICK = [[], ["-v2"], ["-v3"], ["-v4"], ["-v5"], ["-c"], ["-p"], ["-offsets
 
 def run(tier, seed, replay=None):
     rep = common.Report("C03", tier, seed)
-    import extract_tables
-    try:
-        extract_tables.main()
-    except extract_tables.ExtractError as e:
-        rep.violation("extract", {"broken": "T1 table extraction from constants.h/OutputToFont.cpp failed: %s" % e}, no_failing_input=True)
-    common.lean_gate(rep, THEOREMS)
+    common.lean_gate(rep, THEOREMS, uses_tables=True)
     build = common.build_repo("rel")
     work = common.new_workdir("c03")
     n = 60 if tier == "quick" else 400
